@@ -62,6 +62,37 @@ def expandLoop (map : List (Nat × Nat)) (fileSize : Nat) : Nat → Nat → Nat 
 def expand (map : List (Nat × Nat)) (fileSize recordSize : Nat) (s : Bytes) : ExpandResult :=
   expandLoop map fileSize (2 * map.length + fileSize + 4) 0 recordSize s []
 
+/--
+The same walk at the granularity of the caller's requests: the caller reads in calls of `want` bytes, each request
+`strm_get_buffered_data(…, rest of the call)` hands out at most that many bytes of the current region and the `offset >= file_size` test runs between two requests.  For a
+well-formed map this produces the same bytes as `expandLoop` (theorem `sparse_expand_spec` is about the region
+walk; the equality of the two walks on well-formed maps is exercised by the correspondence check, not proved).
+For a malformed map whose data region reaches beyond `file_size` the C result depends on `want`: the region is
+cut at the first request boundary past the end of the file.
+-/
+def expandLoopC (map : List (Nat × Nat)) (fileSize want : Nat) : Nat → Nat → Nat → Bytes → Bytes → ExpandResult
+  | 0, _, rsz, s, acc => ⟨acc, s, rsz, .eof⟩
+  | f + 1, offset, rsz, s, acc =>
+    if offset ≥ fileSize then ⟨acc, s, rsz, .eof⟩
+    else
+      let (hole, n) := isSparseRegion map fileSize offset
+      if n = 0 then ⟨acc, s, rsz, .eof⟩
+      else
+        -- the caller reads in calls of `want` bytes (`sqfs_istream_read` / `sqfs_istream_splice`); a request asks for what is
+        -- left of the current call, and the output position equals `offset`
+        let room := want - offset % want
+        let n := if n > room then room else n
+        if hole then expandLoopC map fileSize want f (offset + n) rsz s (acc ++ zeros n)
+        else
+          if s.isEmpty then ⟨acc, s, rsz, .corrupted⟩
+          else
+            let got := s.take n
+            let rsz' := (rsz + U64 - got.length % U64) % U64
+            expandLoopC map fileSize want f (offset + got.length) rsz' (s.drop got.length) (acc ++ got)
+
+def expandC (want : Nat) (map : List (Nat × Nat)) (fileSize recordSize : Nat) (s : Bytes) : ExpandResult :=
+  expandLoopC map fileSize want (fileSize + 4) 0 recordSize s []
+
 /-- what `it_next` reports for one archive member -/
 structure IterEntry where
   name : Bytes
@@ -85,7 +116,7 @@ inductive IterEnd | eof | err
 The directory iterator driven like tar2sqfs drives it: `next`, read the file stream of every regular file
 to its end, `next`, …  `skip` = `record_size` + `padding` still to be skipped before the next header.
 -/
-def iterLoop (cfg : ReadCfg) : Nat → Bytes → Nat → List IterEntry → List IterEntry × IterEnd
+def iterLoop (cfg : ReadCfg) (want : Nat) : Nat → Bytes → Nat → List IterEntry → List IterEntry × IterEnd
   | 0, _, _, acc => (acc, .err)
   | f + 1, s, skip, acc =>
     match readHeaderWith cfg (s.drop skip) with
@@ -93,7 +124,7 @@ def iterLoop (cfg : ReadCfg) : Nat → Bytes → Nat → List IterEntry → List
     | .err => (acc, .err)
     | .ok d s' =>
       let pad := padding d.recordSize
-      if d.unknown then iterLoop cfg f s' (d.recordSize + pad) acc                  -- `goto retry`
+      if d.unknown then iterLoop cfg want f s' (d.recordSize + pad) acc                  -- `goto retry`
       else
         match Sqfs.Path.canonicalize (d.name.getD []) with
         | none => (acc, .err)                                                    -- `SQFS_ERROR_CORRUPTED`
@@ -103,15 +134,17 @@ def iterLoop (cfg : ReadCfg) : Nat → Bytes → Nat → List IterEntry → List
           let size := if isReg then d.actualSize else 0
           let link := if fmt mode = S_IFLNK then d.link else none
           if isReg then
-            let r := expand d.sparse d.actualSize d.recordSize s'
+            let r := expandC want d.sparse d.actualSize d.recordSize s'
             let e : IterEntry := ⟨nm, mode, d.hardLink, d.uid, d.gid, d.mtime, size, link, some r, d.devMajor, d.devMinor, d.xattr⟩
             match r.ending with
             | .corrupted => (acc ++ [e], .err)                                   -- iterator state poisoned by `drop_parent`
-            | .eof => iterLoop cfg f r.stream (r.recordSize + pad) (acc ++ [e])
+            | .eof => iterLoop cfg want f r.stream (r.recordSize + pad) (acc ++ [e])
           else
-            iterLoop cfg f s' (d.recordSize + pad) (acc ++ [⟨nm, mode, d.hardLink, d.uid, d.gid, d.mtime, size, link, none, d.devMajor, d.devMinor, d.xattr⟩])
+            iterLoop cfg want f s' (d.recordSize + pad) (acc ++ [⟨nm, mode, d.hardLink, d.uid, d.gid, d.mtime, size, link, none, d.devMajor, d.devMinor, d.xattr⟩])
 
-def iterateWith (cfg : ReadCfg) (s : Bytes) : List IterEntry × IterEnd := iterLoop cfg (s.length / 512 + 2) s 0 []
+/-- `want` = size of the caller's read requests (512 in `harness/h_c04.c`, the block size in tar2sqfs) -/
+def iterateWith (cfg : ReadCfg) (s : Bytes) (want : Nat := 512) : List IterEntry × IterEnd :=
+  iterLoop cfg want (s.length / 512 + 2) s 0 []
 
 def iterate (s : Bytes) : List IterEntry × IterEnd := iterateWith {} s
 
